@@ -3,5 +3,6 @@ INVARIANTS
   VerdictOK
   C11_SuspCount
   C11_RunningWithinBounds
+  NonconfReport
 POSTCONDITION Accepted
 CHECK_DEADLOCK FALSE
